@@ -3,9 +3,9 @@ from .. import runner, gen
 from ..harnesses import HEnum, HStory, body_states, BODY_TOKENS
 from ..monitors import ScriptBody
 
-RULE = ('(1) H-ENUM: one-story running orders whose story children are every sequence of length <= B over 15 paragraph kinds '
+RULE = ('(1) H-ENUM: one-story running orders whose story children are every sequence of length <= B over 17 paragraph kinds '
         '(plain, empty, whitespace-only, (round), <angle>, half-open, half-closed, padded bracketed, "()", inner brackets, '
-        'Unicode, padded plain, "(a) and (b)", opening round/closing angle, opening angle/closing round), an item and a foreign element; (2) H-STORY closure (moves, swaps, inserts, '
+        'Unicode, padded plain, "(a) and (b)", opening round/closing angle, opening angle/closing round, bracketed over two lines), an item and a foreign element; (2) H-STORY closure (moves, swaps, inserts, '
         'replaces, deletes, roStorySend with bodies) over stories with per-ID bodies. Monitor (every state): body = every '
         '<p> (text or \'\') and every item in document order; script = stripped non-empty paragraphs not wrapped in () or <>; '
         'running-order script/body = concatenation in story order - all derived independently from the XML text.')
@@ -25,7 +25,7 @@ BODIES = {
     'C': (('x', 1), ('p', 'half-open'), ('p', 'ws'), ('i', 'c'), ('p', 'inner')),
     'D': (),
     'E': (('p', 'padded'), ('p', 'half-close'), ('p', 'parens-only')),
-    'F': (('p', 'mixed-br'), ('p', 'round-angle'), ('p', 'angle-round')),
+    'F': (('p', 'mixed-br'), ('p', 'round-angle'), ('p', 'angle-round'), ('p', 'round-multiline'), ('p', 'angle-multiline')),
 }
 SEND_BODIES = ((('p', 'plain'), ('i', 'e'), ('p', 'round')), (('p', 'ws'), ('p', 'unicode')), ())
 
@@ -33,7 +33,7 @@ SEND_BODIES = ((('p', 'plain'), ('i', 'e'), ('p', 'round')), (('p', 'ws'), ('p',
 def run(tier):
     mon = [ScriptBody()]
     if tier == 'quick':
-        toks6 = tuple(('p', k) for k in ('plain', 'empty', 'round', 'half-open', 'round-angle', 'unicode')) + (('i', 'a'),)
+        toks6 = tuple(('p', k) for k in ('plain', 'empty', 'round', 'round-multiline', 'round-angle', 'unicode')) + (('i', 'a'),)
         parts = [
             {'label': 'bodies-len<=3-all-kinds', 'harness': HEnum(body_states(3), 'bodies3'), 'monitors': mon},
             {'label': 'bodies-len4-7-kinds', 'harness': HEnum(body_states(4, toks6), 'bodies4'), 'monitors': mon},
